@@ -39,6 +39,9 @@ type ReadPlan struct {
 	Chunk    int    `json:"chunk,omitempty"`
 	CloseAt  int    `json:"close_at,omitempty"` // closeearly: bytes to read before Close
 	PostEOFs int    `json:"post_eofs,omitempty"`
+	// ZeroProbe: the handler issues zero-length reads (a probe before the first read and one after every chunk), as
+	// length-prefixed decoders and "is there a reader at all" probes do; they must not affect what the real reads see
+	ZeroProbe bool `json:"zero_probe,omitempty"`
 }
 
 type ReadResult struct {
@@ -86,6 +89,10 @@ func (ReaderAPI) Consume(ctx context.Context, tok string, plan ReadPlan, r io.Re
 		limit = plan.CloseAt
 	}
 	sawEOF := false
+	if plan.ZeroProbe {
+		r.Read(buf[:0])
+		r.Read(nil)
+	}
 	for limit < 0 || res.Len < limit {
 		want := buf
 		if limit >= 0 && limit-res.Len < len(want) {
@@ -96,6 +103,9 @@ func (ReaderAPI) Consume(ctx context.Context, tok string, plan ReadPlan, r io.Re
 		if err == io.EOF {
 			sawEOF = true
 			break
+		}
+		if plan.ZeroProbe && err == nil {
+			r.Read(buf[:0])
 		}
 		if err != nil {
 			res.ReadErr = err.Error()
@@ -418,6 +428,9 @@ type c20Case struct {
 	// UploadCut > 0 (ws transport, one call): the connection carrying the upload is reset after that many bytes
 	// (request head included); later connections to the upload endpoint work again.
 	UploadCut int `json:"upload_cut,omitempty"`
+	// Abandon (ws): before the calls, one reader-carrying call is given up by its caller (its context ends) while its
+	// upload is still on the way; the upload arrives after that. The calls proper must be unaffected.
+	Abandon bool `json:"abandon,omitempty"`
 }
 
 func c20Payload(tok string, n int, seed uint64) []byte {
@@ -456,6 +469,27 @@ func (e *c20Env) run(c c20Case) *Violation {
 	if c.UploadCut > 0 {
 		return e.runUploadCut(c)
 	}
+	if c.Abandon {
+		e.evMu.Lock()
+		e.uploadDelay = 300 * time.Millisecond
+		e.evMu.Unlock()
+		actx, acancel := context.WithTimeout(context.Background(), 100*time.Millisecond)
+		adone := make(chan struct{})
+		go func() {
+			defer close(adone)
+			e.wsClient.Consume(actx, "tok-abandoned|", ReadPlan{Pattern: "readall"}, strings.NewReader("tok-abandoned|payload"))
+		}()
+		select {
+		case <-adone:
+		case <-time.After(3 * time.Second):
+		}
+		acancel()
+		time.Sleep(450 * time.Millisecond) // the upload of the abandoned call has reached the server by now
+		e.evMu.Lock()
+		e.uploadDelay = 0
+		e.uploadsIn, e.rpcIn, e.uploadsDone, e.uploadStatus = 0, 0, 0, nil
+		e.evMu.Unlock()
+	}
 	type out struct {
 		res ReadResult
 		err error
@@ -475,7 +509,10 @@ func (e *c20Env) run(c c20Case) *Violation {
 			outs[i] = out{r, err}
 		}(i, call)
 	}
-	wg.Wait()
+	// (over WebSocket a call does not return on its context alone: it waits for the server's answer to the cancel)
+	if !bounded(9*time.Second, wg.Wait) {
+		return violf("call-hangs", "reader-carrying calls (each with a 4 s context) had not all returned after 9 s: transport %s, order %s, %d calls, abandon=%v", c.Transport, c.Order, len(c.Calls), c.Abandon)
+	}
 	for i, call := range c.Calls {
 		o := outs[i]
 		tok := fmt.Sprintf("tok-%02d-%08x|", i, call.Seed&0xffffffff)
@@ -619,6 +656,7 @@ func genC20Call(t *rapid.T, i int, maxLen int) c20Call {
 	case "closeearly":
 		p.CloseAt = rapid.IntRange(0, n).Draw(t, l+"closeat")
 	}
+	p.ZeroProbe = rapid.IntRange(0, 4).Draw(t, l+"zeroprobe") == 0
 	call := c20Call{Len: n, Seed: rapid.Uint64().Draw(t, l+"seed"), Plan: p}
 	call.Reader = rapid.SampledFrom([]string{"", "", "bytes", "section", "opaque"}).Draw(t, l+"reader")
 	if n > 0 && rapid.IntRange(0, 3).Draw(t, l+"preconsumed") == 0 {
@@ -660,20 +698,28 @@ func c20NT(c c20Case) (bool, []string) {
 			cl = append(cl, "pre_consumed")
 			nt = true
 		}
+		if call.Plan.ZeroProbe {
+			cl = append(cl, "zero_length_reads")
+			nt = true
+		}
 	}
 	if c.UploadCut > 0 {
 		cl = append(cl, "upload_cut")
 		nt = true
 	}
+	if c.Abandon {
+		cl = append(cl, "abandoned_call_then_late_upload")
+		nt = true
+	}
 	return nt, cl
 }
 
-const c20Rule = "payload length from edge lengths {0,1,2,15..17,511..513,4095..4097,32767..32769,65536,100000} or uniform up to the tier's maximum (256 KiB quick, 4 MiB thorough), seeded pseudo-random content prefixed by the call's token; read pattern {ReadAll, byte-at-a-time, chunked, read past EOF 1-3 times, Close after EOF, Close early}; arrival order {natural, request first (upload delayed 25 ms), upload first (RPC request delayed 25 ms, http transport)}; 1-6 concurrent calls; RPC over ws or http; the caller's reader is a strings/bytes/section reader or one exposing only Read, fresh or with 1..n bytes already consumed by reading or seeking (the handler must then see what remains); a few ws cases reset the connection carrying the upload after 100 B - 500 kB (the call may fail then, but a stream that ends in a clean EOF must be byte-exact). Non-trivial = more than one concurrent call, a forced order, length 0 or > 32 KiB, or any pattern other than ReadAll; distinct by descriptor hash"
+const c20Rule = "payload length from edge lengths {0,1,2,15..17,511..513,4095..4097,32767..32769,65536,100000} or uniform up to the tier's maximum (256 KiB quick, 4 MiB thorough), seeded pseudo-random content prefixed by the call's token; read pattern {ReadAll, byte-at-a-time, chunked, read past EOF 1-3 times, Close after EOF, Close early}, optionally with zero-length reads interspersed; arrival order {natural, request first (upload delayed 25 ms), upload first (RPC request delayed 25 ms, http transport)}; 1-6 concurrent calls; RPC over ws or http; the caller's reader is a strings/bytes/section reader or one exposing only Read, fresh or with 1..n bytes already consumed by reading or seeking (the handler must then see what remains); a few cases first let a caller abandon a reader-carrying call whose upload arrives only afterwards; a few ws cases reset the connection carrying the upload after 100 B - 500 kB (the call may fail then, but a stream that ends in a clean EOF must be byte-exact). Non-trivial = more than one concurrent call, a forced order, length 0 or > 32 KiB, or any pattern other than ReadAll; distinct by descriptor hash"
 
 func TestC20(t *testing.T) {
 	rec := NewRec("C20", c20Rule)
 	defer rec.Finish(t)
-	rec.RequireClass("upload_cut", "pre_consumed", "reader_bytes", "reader_section", "reader_opaque", "order_aligned", "len_0", "len_gt_32k", "reads_past_eof", "pattern_closeafter", "pattern_closeearly", "pattern_bytewise", "order_request_first", "order_upload_first", "ncalls_3", "tr_ws", "tr_http")
+	rec.RequireClass("zero_length_reads", "abandoned_call_then_late_upload", "upload_cut", "pre_consumed", "reader_bytes", "reader_section", "reader_opaque", "order_aligned", "len_0", "len_gt_32k", "reads_past_eof", "pattern_closeafter", "pattern_closeearly", "pattern_bytewise", "order_request_first", "order_upload_first", "ncalls_3", "tr_ws", "tr_http")
 	env, err := newC20Env()
 	if err != nil {
 		t.Fatalf("env: %v", err)
@@ -723,6 +769,22 @@ func TestC20(t *testing.T) {
 					rec.Run(t, c, nt, cl, func() *Violation { return env.runConfirm(c) })
 				}
 			}
+		}
+		// zero-length reads interspersed with the real ones
+		for _, tr := range []string{"ws", "http"} {
+			for _, n := range []int{0, 1, 5000, 100000} {
+				for _, pat := range []ReadPlan{{Pattern: "readall", ZeroProbe: true}, {Pattern: "chunked", Chunk: 512, ZeroProbe: true}} {
+					c := c20Case{Transport: tr, Order: "natural", Calls: []c20Call{{Len: n, Seed: uint64(n) + 5, Plan: pat, Reader: []string{"", "opaque"}[n%2]}}}
+					nt, cl := c20NT(c)
+					rec.Run(t, c, nt, cl, func() *Violation { return env.runConfirm(c) })
+				}
+			}
+		}
+		// a call abandoned by its caller before its upload arrived, then ordinary calls
+		for _, tr := range []string{"ws", "http"} {
+			c := c20Case{Transport: tr, Order: "natural", Abandon: true, Calls: []c20Call{{Len: 100, Seed: 1, Plan: ReadPlan{Pattern: "readall"}}, {Len: 5000, Seed: 2, Plan: ReadPlan{Pattern: "readall"}}}}
+			nt, cl := c20NT(c)
+			rec.Run(t, c, nt, cl, func() *Violation { return env.runConfirm(c) })
 		}
 		// the upload's connection is reset part-way
 		for _, uc := range []struct{ n, cut int }{{1 << 20, 64 << 10}, {300000, 20000}, {1 << 20, 500000}, {2000, 100}} {
@@ -780,7 +842,7 @@ func TestC20(t *testing.T) {
 // runConfirm re-runs cases whose verdict depends on a bound.
 func (e *c20Env) runConfirm(c c20Case) *Violation {
 	v := e.run(c)
-	if v != nil && (v.Key == "upload-not-completed" || v.Key == "call-failed") {
+	if v != nil && (v.Key == "upload-not-completed" || v.Key == "call-failed" || v.Key == "call-hangs") {
 		tries := 1
 		if c.Order == "aligned" {
 			tries = 40 // the confirming run has to hit the same narrow window again
